@@ -246,6 +246,186 @@ Proof.
 Qed.
 End PoolFifo.
 
+
+(* ---- the pool with a deferring configuration ---- *)
+(* While a configuration that defers the event types selected by D stays active (the dispatcher is a stub that records
+   the payload and changes nothing), one pass of the pool loop dispatches exactly the stored occurrences whose type is
+   not deferred, oldest first, each once, and leaves the deferred ones in the pool, unmarked, in their order, with
+   their stamps - as long as no occurrence stays stored for a whole turn of the counter. *)
+Section PoolDefer.
+Variable cf : cfg.
+Variable parents : list (option nat).
+Variable contained : bool.
+Variable mc : machine.
+Variable children : list (option child_ops).
+Variable D : nat -> bool.
+(* the active configuration (what defers_active reads) stays what it is: conf0 *)
+Definition conf_of (rn:rnode) : list nat * list (option rnode) * bool := (act rn, kids rn, running rn).
+Variable conf0 : list nat * list (option rnode) * bool.
+Hypothesis Hdefer : forall rn ety, conf_of rn = conf0 -> defers_active mc children rn ety = D ety.
+
+Notation PL := (pool_loop cf parents contained mc children (mstubd (fun _ => []))).
+Definition dfd (x:evt * nat) : bool := D (e_ty (fst x)).
+Definition ndfd (x:evt * nat) : bool := negb (dfd x).
+
+Lemma step_skip f idx p rn g e s seq : conf_of rn = conf0 ->
+  nth_error (msgq rn) idx = Some (QEv e s seq false) -> D (e_ty e) = true ->
+  PL (S f) idx p 0%nat rn g = PL f (S idx) p 0%nat rn g.
+Proof.
+  intros Hcf Hn Hd. cbn [pool_loop]. unfold bind at 1. unfold get at 1. rewrite Hn. cbn [is_marked].
+  rewrite (Hdefer rn _ Hcf), Hd, orb_true_r. reflexivity.
+Qed.
+
+Lemma step_dispatch f idx p rn g e s seq : conf_of rn = conf0 ->
+  nth_error (msgq rn) idx = Some (QEv e s seq false) -> Z.eqb seq (curseq rn) = false -> D (e_ty e) = false ->
+  PL (S f) idx p 0%nat rn g =
+  PL f 0%nat (S p) 0%nat (set_curseq (set_msgq rn (mark_at idx (msgq rn))) (wrap_mp11 (curseq rn + 1)))
+     (Glob (Res (e_pay e) :: g_tr g) (g_cb g) (g_plan g) (g_val g) (g_up g) (g_bad g)).
+Proof.
+  intros Hcf Hn Hs Hd. cbn [pool_loop]. unfold bind at 1. unfold get at 1. rewrite Hn. cbn [is_marked].
+  rewrite Hs, (Hdefer rn _ Hcf), Hd. cbn [orb]. unfold bind at 1. unfold put at 1.
+  unfold bind at 1. unfold mstubd at 1. unfold bind at 1. unfold emit at 1. cbn [iterM]. unfold bind at 1. unfold ret at 1. unfold ret at 1.
+  change (Nat.eqb HANDLED_TRUE HANDLED_DEFERRED) with false. change (negb (Nat.eqb 0 0)) with false.
+  rewrite andb_false_r. change (negb (has_bits HANDLED_TRUE HANDLED_DEFERRED)) with true. cbn [when].
+  unfold bind at 1. unfold modify at 1. destruct rn; reflexivity.
+Qed.
+
+Lemma pool_items_app c a b : pool_items c (a ++ b) = pool_items c a ++ pool_items c b.
+Proof. unfold pool_items. apply map_app. Qed.
+Lemma pool_items_length c a : length (pool_items c a) = length a.
+Proof. unfold pool_items. apply map_length. Qed.
+Lemma pool_items_older c q : 0 <= c < MW -> pool_items ((c + 1) mod MW) (older q) = pool_items c q.
+Proof.
+  intros Hc. unfold pool_items, older. rewrite map_map. apply map_ext. intros x.
+  rewrite <- (item_older c x) by exact Hc. reflexivity.
+Qed.
+Lemma filter_older p q : (forall x, p (fst x, S (snd x)) = p x) -> filter p (older q) = older (filter p q).
+Proof.
+  intros Hp. unfold older. induction q as [|x t IH]; [reflexivity|]. cbn [map filter]. rewrite Hp.
+  destruct (p x); cbn [map]; rewrite IH; reflexivity.
+Qed.
+Lemma nth_error_mid {A} (a:list A) x b : nth_error (a ++ x :: b) (length a) = Some x.
+Proof. induction a as [|h t IH]; [reflexivity | exact IH]. Qed.
+Lemma nth_error_end {A} (a:list A) : nth_error a (length a) = None.
+Proof. induction a as [|h t IH]; [reflexivity | exact IH]. Qed.
+Lemma upd_mid {A} (a:list A) x y b : upd (a ++ x :: b) (length a) y = a ++ y :: b.
+Proof. induction a as [|h t IH]; [reflexivity | cbn; rewrite IH; reflexivity]. Qed.
+Lemma remove_mid {A} (a:list A) x b : remove_at (length a) (a ++ x :: b) = a ++ b.
+Proof. induction a as [|h t IH]; [reflexivity | cbn; rewrite IH; reflexivity]. Qed.
+
+(* walking over occurrences that stay deferred *)
+Lemma skip_run : forall K2 K1 rest f rn g p, conf_of rn = conf0 ->
+  msgq rn = pool_items (curseq rn) K1 ++ pool_items (curseq rn) K2 ++ rest -> Forall (fun x => dfd x = true) K2 ->
+  PL (length K2 + f)%nat (length K1) p 0%nat rn g = PL f (length K1 + length K2)%nat p 0%nat rn g.
+Proof.
+  induction K2 as [|x K2 IH]; intros K1 rest f rn g p Hcf Hq Hall.
+  - cbn [length]. rewrite Nat.add_0_r. reflexivity.
+  - inversion Hall as [|x' t' Hx Ht]; subst x' t'. cbn [length Nat.add].
+    rewrite (step_skip (length K2 + f) (length K1) p rn g (fst x) 0%nat ((curseq rn - Z.of_nat (snd x)) mod MW) Hcf).
+    + replace (S (length K1)) with (length (K1 ++ [x])) by (rewrite app_length; cbn; lia).
+      rewrite (IH (K1 ++ [x]) rest f rn g p Hcf).
+      * rewrite app_length. cbn [length]. f_equal. lia.
+      * rewrite Hq. rewrite pool_items_app. cbn [pool_items map app]. rewrite <- app_assoc. reflexivity.
+      * exact Ht.
+    + rewrite Hq. rewrite <- (pool_items_length (curseq rn) K1). cbn [pool_items map app]. apply nth_error_mid.
+    + exact Hx.
+Qed.
+
+Theorem mp11_pool_keeps_deferred : forall R K f rn g p, conf_of rn = conf0 ->
+  0 <= curseq rn < MW -> msgq rn = pool_items (curseq rn) (K ++ R) -> Forall (fun x => dfd x = true) K ->
+  ages_ok (length R) (K ++ R) -> (length R * (length K + length R + 3) + 1 <= f)%nat ->
+  PL f (length K) p 0%nat rn g =
+    (Some (p + length (filter ndfd R))%nat,
+     set_curseq (set_msgq rn (pool_items (curseq rn) (K ++ filter dfd R)))
+                ((curseq rn + Z.of_nat (length (filter ndfd R))) mod MW),
+     Glob (rev (map (fun x => Res (e_pay (fst x))) (filter ndfd R)) ++ g_tr g) (g_cb g) (g_plan g) (g_val g) (g_up g) (g_bad g)).
+Proof.
+  intros R. remember (length R) as n eqn:En. revert R En.
+  induction n as [|n IH]; intros R En K f rn g p Hcf Hc Hq HK Hages Hf; destruct R as [|x R]; try discriminate En.
+  - destruct f as [|f]; [cbn in Hf; lia|].
+    assert (Hn : nth_error (msgq rn) (length K) = None).
+    { rewrite Hq, app_nil_r. rewrite <- (pool_items_length (curseq rn) K). apply nth_error_end. }
+    cbn [pool_loop]. unfold bind at 1. unfold get at 1. rewrite Hn.
+    cbn [filter length map rev app]. rewrite Nat.add_0_r, Z.add_0_r, Z.mod_small by lia.
+    unfold ret. rewrite app_nil_r in *. destruct rn, g; cbn in *; subst; reflexivity.
+  - cbn [length] in Hf, Hages, En. injection En as En.
+    assert (Hnth : nth_error (msgq rn) (length K) = Some (item (curseq rn) x)).
+    { rewrite Hq, pool_items_app. cbn [pool_items map]. rewrite <- (pool_items_length (curseq rn) K). apply nth_error_mid. }
+    assert (Hx : 1 <= Z.of_nat (snd x) /\ Z.of_nat (snd x) + Z.of_nat (S (length R)) < MW).
+    { unfold ages_ok in Hages. apply Forall_app in Hages. destruct Hages as (_ & HR). inversion HR; subst; assumption. }
+    destruct (dfd x) eqn:Edx.
+    + (* stays deferred: passed over *)
+      destruct f as [|f]; [lia|].
+      rewrite (step_skip f (length K) p rn g (fst x) 0%nat ((curseq rn - Z.of_nat (snd x)) mod MW) Hcf Hnth Edx).
+      replace (S (length K)) with (length (K ++ [x])) by (rewrite app_length; cbn; lia).
+      rewrite (IH R En (K ++ [x]) f rn g p Hcf Hc).
+      * assert (F1 : filter ndfd (x :: R) = filter ndfd R) by (cbn [filter]; unfold ndfd at 1; rewrite Edx; reflexivity).
+        assert (F2 : filter dfd (x :: R) = x :: filter dfd R) by (cbn [filter]; rewrite Edx; reflexivity).
+        rewrite F1, F2, <- app_assoc. reflexivity.
+      * rewrite <- app_assoc. exact Hq.
+      * apply Forall_app. split; [exact HK | constructor; [exact Edx | constructor]].
+      * rewrite <- app_assoc. unfold ages_ok in *. eapply Forall_impl; [|exact Hages]. intros y (H1 & H2). cbn beta. lia.
+      * rewrite app_length. cbn [length]. nia.
+    + (* dispatched *)
+      assert (Eseq : Z.eqb ((curseq rn - Z.of_nat (snd x)) mod MW) (curseq rn) = false).
+      { apply Z.eqb_neq. rewrite MW_val in *. apply seq_neq; lia. }
+      set (f2 := (f - (length K + 2))%nat).
+      replace f with (S (length K + S f2)) by (unfold f2; nia).
+      rewrite (step_dispatch (length K + S f2) (length K) p rn g (fst x) 0%nat ((curseq rn - Z.of_nat (snd x)) mod MW) Hcf Hnth Eseq Edx).
+      set (c1 := wrap_mp11 (curseq rn + 1)).
+      assert (Ec1 : c1 = (curseq rn + 1) mod MW) by (unfold c1; apply wrap_mp11_mod).
+      set (marked := QEv (fst x) 0%nat ((curseq rn - Z.of_nat (snd x)) mod MW) true).
+      assert (Hm : mark_at (length K) (msgq rn) = pool_items c1 (older K) ++ marked :: pool_items c1 (older R)).
+      { unfold mark_at. rewrite Hnth. unfold item. rewrite Ec1, !pool_items_older by exact Hc.
+        rewrite Hq, pool_items_app. cbn [pool_items map]. rewrite <- (pool_items_length (curseq rn) K). apply upd_mid. }
+      rewrite Hm.
+      set (rn1 := set_curseq (set_msgq rn (pool_items c1 (older K) ++ marked :: pool_items c1 (older R))) c1).
+      assert (Hc1 : curseq rn1 = c1) by (unfold rn1; destruct rn; reflexivity).
+      assert (Hcf1 : conf_of rn1 = conf0) by (rewrite <- Hcf; unfold rn1; destruct rn; reflexivity).
+      assert (Hq1 : msgq rn1 = pool_items (curseq rn1) [] ++ pool_items (curseq rn1) (older K) ++ marked :: pool_items c1 (older R))
+        by (rewrite Hc1; unfold rn1; destruct rn; reflexivity).
+      replace (length K) with (length (older K)) at 1 by (unfold older; apply map_length).
+      rewrite (skip_run (older K) [] _ (S f2) rn1 _ (S p) Hcf1 Hq1).
+      2:{ unfold older. rewrite Forall_map. eapply Forall_impl; [|exact HK]. intros y Hy. exact Hy. }
+      cbn [length Nat.add].
+      (* the marked cell is removed *)
+      erewrite pool_marked; [| rewrite Hq1, Hc1; cbn [pool_items map app]; rewrite <- (pool_items_length c1 (older K)); apply nth_error_mid | reflexivity].
+      set (rn2 := set_msgq rn1 (remove_at (length (older K)) (msgq rn1))).
+      assert (Hq2 : msgq rn2 = pool_items (curseq rn2) (older K ++ older R)).
+      { unfold rn2. replace (curseq (set_msgq rn1 _)) with c1 by (rewrite <- Hc1; destruct rn1; reflexivity).
+        replace (msgq (set_msgq rn1 (remove_at (length (older K)) (msgq rn1)))) with (remove_at (length (older K)) (msgq rn1)) by (destruct rn1; reflexivity).
+        rewrite Hq1, Hc1. cbn [pool_items map app]. rewrite <- (pool_items_length c1 (older K)), remove_mid. rewrite pool_items_app. reflexivity. }
+      assert (Hc2 : curseq rn2 = c1) by (unfold rn2; rewrite <- Hc1; destruct rn1; reflexivity).
+      assert (Hcf2 : conf_of rn2 = conf0) by (rewrite <- Hcf1; unfold rn2; destruct rn1; reflexivity).
+      rewrite (IH (older R) ltac:(unfold older; rewrite map_length; exact En) (older K) f2 rn2 _ (S p)).
+      * (* the results coincide *)
+        assert (F1 : filter ndfd (x :: R) = x :: filter ndfd R) by (cbn [filter]; unfold ndfd at 1; rewrite Edx; reflexivity).
+        assert (F2 : filter dfd (x :: R) = filter dfd R) by (cbn [filter]; rewrite Edx; reflexivity).
+        rewrite F1, F2.
+        assert (Fd : filter dfd (older R) = older (filter dfd R)) by (apply filter_older; intros y; reflexivity).
+        assert (Fn : filter ndfd (older R) = older (filter ndfd R)) by (apply filter_older; intros y; reflexivity).
+        rewrite Fd, Fn. cbn [length map rev].
+        assert (Lo : forall q, length (older q) = length q) by (intros q; unfold older; apply map_length).
+        assert (Mo : forall q, map (fun y => Res (e_pay (fst y))) (older q) = map (fun y => Res (e_pay (fst y))) q)
+          by (intros q; unfold older; rewrite map_map; reflexivity).
+        rewrite Lo, Mo. f_equal; [f_equal; [f_equal; lia|]|].
+        -- rewrite Hc2. replace (older K ++ older (filter dfd R)) with (older (K ++ filter dfd R)) by (unfold older; apply map_app).
+           rewrite Ec1, pool_items_older by exact Hc.
+           unfold rn2, rn1. destruct rn as [ac ks hi qq dq c pr ru]. cbn [curseq set_curseq set_msgq]. f_equal.
+           rewrite Zplus_mod_idemp_l. f_equal. lia.
+        -- cbn [g_tr g_cb g_plan g_val g_up g_bad]. rewrite <- app_assoc. reflexivity.
+      * exact Hcf2.
+      * rewrite Hc2, Ec1. apply Z.mod_pos_bound. reflexivity.
+      * exact Hq2.
+      * unfold older. rewrite Forall_map. eapply Forall_impl; [|exact HK]. intros y Hy. exact Hy.
+      * replace (older K ++ older R) with (older (K ++ R)) by (unfold older; apply map_app).
+        unfold ages_ok, older. rewrite Forall_map. subst n.
+        apply Forall_app in Hages. destruct Hages as (HA & HB). inversion HB as [|? ? _ HB']; subst.
+        apply Forall_app. split; (eapply Forall_impl; [|eassumption]); intros y (H1 & H2); cbn [snd]; lia.
+      * unfold older. rewrite !map_length. subst n. unfold f2. nia.
+Qed.
+End PoolDefer.
+
 (* the boundary (finding F6): an occurrence that has stayed stored for a whole turn of the counter carries the current
    sequence value again ... *)
 Lemma age_full_turn c : (c - MW) mod MW = c mod MW.
